@@ -50,7 +50,7 @@ IGNORABLE_SHAPES = ('tuple[Union[{T}, object], int]', 'dict[str, Union[{T}, obje
 
 
 def generate(rng, run, tier):
-    placement = rng.choice(['module', 'module', 'method', 'nested_method', 'closure'])
+    placement = rng.choice(['module', 'module', 'method', 'nested_method', 'closure', 'closure_method'])
     style = rng.choice(['quoted', 'quoted', 'postponed', 'partial'])
     names = ['Early', 'Later']
     if placement == 'method':
@@ -59,13 +59,13 @@ def generate(rng, run, tier):
         # Tag: an alias bound in the body of the class defining the method only; Key: bound in that body (to Early) and,
         # differently (to int), in the body of the enclosing decorated class, which Python's scoping does not consult
         names += ['Outer', 'Outer.Inner', 'Inner', 'Tag', 'Key']
-    elif placement == 'closure':
+    elif placement in ('closure', 'closure_method'):
         names += ['Local', 'Local']
     shape = rng.choice(SHAPES)
     t = rng.choice(names)
     u = rng.choice(['Early', 'Later', 'str'])
     text = shape.format(T=t, U=u)
-    if placement == 'closure' and text.strip() == 'Later' and rng.random() < 0.8:
+    if placement in ('closure', 'closure_method') and text.strip() == 'Later' and rng.random() < 0.8:
         # avoid switch: known finding C07-closure-fake-forwardref (unresolvable name in a closure is matched by class name)
         text = 'list[Later]'
         shape = 'list[{T}]'
@@ -94,7 +94,7 @@ def generate(rng, run, tier):
     return {'placement': placement, 'style': style, 'text': text, 'T': t, 'U': u, 'events': events,
             # what the module-level names Early / Later refer to: plain classes, or subclasses of a subscripted generic
             # (avoid switch: in closures the known finding C07-closure-fake-forwardref also shows with such classes)
-            'flavour': rng.choice([None, None, None, 'list_int', 'dict_str_int']) if (placement != 'closure' or rng.random() < 0.15) else None,
+            'flavour': rng.choice([None, None, None, 'list_int', 'dict_str_int']) if (placement not in ('closure', 'closure_method') or rng.random() < 0.15) else None,
             # the same source is executed a second time in a second module with its own classes (same names):
             # nothing resolved or generated for the first scope may leak into the second
             'two_scopes': rng.random() < 0.5}
@@ -125,6 +125,10 @@ def _source(case):
         body = ['@beartype', 'class Outer:', '    Key = int', '    class Inner:', '        Tag = Early', '        Key = Early',
                 '        def m(self, a: %s) -> %s:' % (ann, ann),
                 '            return a', 'f = Outer.Inner().m', 'Inner = None']
+    elif p == 'closure_method':
+        # a class decorated inside a function; its method names a local of that function defined after the class
+        body = ['def factory():', '    @beartype', '    class Holder:', '        def m(self, a: %s) -> %s:' % (ann, ann),
+                '            return a', '    class Local: pass', '    return Holder().m, Local', 'f, Local_ = factory()']
     else:
         body = ['def factory():', '    @beartype', '    def clo(a: %s) -> %s:' % (ann, ann), '        return a',
                 '    class Local: pass', '    return clo, Local', 'f, Local_ = factory()']
@@ -214,7 +218,7 @@ def execute(case):
     probes['histories'] = 1
     if case['style'] == 'postponed':
         probes['postponed_style'] = 1
-    if case['placement'] == 'closure':
+    if case['placement'] in ('closure', 'closure_method'):
         probes['closure_placements'] = 1
     if case['placement'] in ('method', 'nested_method'):
         probes['method_placements'] = 1
@@ -365,7 +369,7 @@ def shrink(case, violation):
 
 
 def _sig_closure_fake(case, v):
-    if case.get('placement') != 'closure':
+    if case.get('placement') not in ('closure', 'closure_method'):
         return False
     if v.get('kind') == 'unresolved_not_reported':
         return True
